@@ -19,7 +19,7 @@ from harness.pyref_c06 import PyRef, RefError, canon, view_of
 
 INT64 = (-2 ** 63, 2 ** 63 - 1)
 COLLS = ['c0', 'c1', 'c2']
-FIXED_PENDING = ['escape', 'jsonUpdFilt', 'redisSrem', 'redisEmpty', 'redisEmptyPart', 'redisFreshId', 'apiReplace']
+FIXED_PENDING = ['escape', 'jsonUpdFilt', 'redisSrem', 'redisEmpty', 'redisEmptyPart', 'redisFreshId', 'apiReplace', 'mongoIdFull']
 
 # ------------------------------------------------------------------------------------------------ values
 
@@ -347,8 +347,6 @@ def mongo_class(op, ref):
     kind = op[0]
     if kind == 'reload':
         return None
-    if any(oid_newline(i) for i in _ids_of(op)):
-        return 'C06-mongo-id-newline'
     pay = _payload(op)
     if any(not (INT64[0] <= i <= INT64[1]) for p in pay for i in _ints(p)):
         return 'C06-mongo-int64'
@@ -640,7 +638,7 @@ class C06(Prop):
         tags = set()
         w = self.wire
         probe = case.get('probe')                 # corpus witnesses of recorded findings: do not skip that class
-        flags = '0 0 0 0 0 0 0' if self.unrepaired else '1 1 1 1 1 1 1'
+        flags = '0 0 0 0 0 0 0 0' if self.unrepaired else '1 1 1 1 1 1 1 1'
         driver.ask('begin ' + flags)
         insts = self._mk_instances(case)
         # environment tables of the model: float texts, date texts
@@ -853,7 +851,7 @@ class C06(Prop):
     def _run_codec(self, case, driver):
         w, ju = self.wire, self.ju
         tags = set()
-        driver.ask('begin ' + ('0 0 0 0 0 0 0' if self.unrepaired else '1 1 1 1 1 1 1'))
+        driver.ask('begin ' + ('0 0 0 0 0 0 0 0' if self.unrepaired else '1 1 1 1 1 1 1 1'))
         vals = [dec(v, lambda t: f'g{t}') for v in case['values']]
         allv = [x for v in vals for x in walk(v)]
         ftab = float_table(allv)
@@ -909,11 +907,7 @@ class C06(Prop):
         tags, obs, fail = set(), [], None
         if to_db is None or from_db is None:
             return None, {'tags': ['ids:unobserved'], 'key': None, 'observed': None}
-        probe = case.get('probe')
         for s in case['ids']:
-            if oid_newline(s) and probe != 'C06-mongo-id-newline':
-                tags.add('skip:C06-mongo-id-newline')
-                continue
             try:
                 d = to_db(s)
                 back = from_db(d)
@@ -925,7 +919,7 @@ class C06(Prop):
             if real[0] == 'exc' or real[2] != s or not isinstance(real[2], str):
                 fail = fail or Failure('property', f'the Mongo driver hands the id {s!r} to the engine and reads it back as '
                                        f'{real[2]!r}' + (f' ({real[1]})' if real[0] == 'exc' else ''), real=self._j(real),
-                                       where='C06-mongo-id-newline' if oid_newline(s) else 'mongo-id')
+                                       where='mongo-id')
                 continue
             rep = driver.ask('idx S' + cps(s)).split(' ')
             if rep[0] == 'err':
